@@ -134,4 +134,74 @@ theorem filter_lt_of_sorted {pre post : List Entry} {x : Entry} (h : Sorted (pre
   rw [this, List.append_nil, List.filter_eq_self]
   exact h1
 
+
+/-! ### big-endian ids: byte order = numeric order -/
+
+def beVal : Bytes → Nat
+  | [] => 0
+  | b :: r => b * 256 ^ r.length + beVal r
+
+theorem beVal_lt : ∀ (r : Bytes), (∀ x ∈ r, x < 256) → beVal r < 256 ^ r.length
+  | [], _ => by simp [beVal]
+  | b :: r, h => by
+    have hb : b < 256 := h b (List.mem_cons_self ..)
+    have hr := beVal_lt r (fun x hx => h x (List.mem_cons_of_mem _ hx))
+    simp only [beVal, List.length_cons, Nat.pow_succ]
+    have : b * 256 ^ r.length ≤ 255 * 256 ^ r.length := Nat.mul_le_mul_right _ (by omega)
+    omega
+
+theorem bytesLt_iff_beVal : ∀ (a b : Bytes), a.length = b.length → (∀ x ∈ a, x < 256) → (∀ x ∈ b, x < 256) →
+    (bytesLt a b = true ↔ beVal a < beVal b)
+  | [], [], _, _, _ => by simp [bytesLt, beVal]
+  | [], _ :: _, h, _, _ => by simp at h
+  | _ :: _, [], h, _, _ => by simp at h
+  | x :: a, y :: b, hlen, ha, hb => by
+    have hlen' : a.length = b.length := by simpa using hlen
+    have ih := bytesLt_iff_beVal a b hlen' (fun z hz => ha z (List.mem_cons_of_mem _ hz))
+      (fun z hz => hb z (List.mem_cons_of_mem _ hz))
+    have va := beVal_lt a (fun z hz => ha z (List.mem_cons_of_mem _ hz))
+    have vb := beVal_lt b (fun z hz => hb z (List.mem_cons_of_mem _ hz))
+    simp only [bytesLt, Bool.or_eq_true, decide_eq_true_eq, Bool.and_eq_true, beVal]
+    rw [ih, hlen']
+    rw [hlen'] at va
+    generalize 256 ^ b.length = P at va vb
+    generalize beVal a = p at va
+    generalize beVal b = q at vb
+    rcases Nat.lt_trichotomy x y with h | h | h
+    · have : (x + 1) * P ≤ y * P := Nat.mul_le_mul_right _ h
+      have e : (x + 1) * P = x * P + P := by rw [Nat.add_mul, Nat.one_mul]
+      constructor
+      · intro _; omega
+      · intro _; exact Or.inl h
+    · subst h
+      constructor
+      · rintro (h | ⟨_, h⟩)
+        · omega
+        · omega
+      · intro h; exact Or.inr ⟨rfl, by omega⟩
+    · have : (y + 1) * P ≤ x * P := Nat.mul_le_mul_right _ h
+      have e : (y + 1) * P = y * P + P := by rw [Nat.add_mul, Nat.one_mul]
+      constructor
+      · rintro (h' | ⟨h', _⟩) <;> omega
+      · intro _; omega
+
+theorem u64Bz_lt_256 (n : UInt64) : ∀ x ∈ u64Bz n, x < 256 := by
+  intro x hx
+  simp only [u64Bz, List.mem_cons, List.not_mem_nil, or_false] at hx
+  omega
+
+theorem beVal_u64Bz (n : UInt64) : beVal (u64Bz n) = n.toNat := by
+  have := UInt64.toNat_lt n
+  simp only [u64Bz, beVal, List.length_cons, List.length_nil, Nat.reducePow, Nat.reduceAdd]
+  omega
+
+theorem u64Bz_lt_iff (a b : UInt64) : bytesLt (u64Bz a) (u64Bz b) = true ↔ a < b := by
+  have h := bytesLt_iff_beVal (u64Bz a) (u64Bz b) (by simp [u64Bz]) (u64Bz_lt_256 a) (u64Bz_lt_256 b)
+  rw [h, beVal_u64Bz, beVal_u64Bz, UInt64.lt_iff_toNat_lt]
+
+theorem u64Bz_le_iff (a b : UInt64) : bytesLe (u64Bz a) (u64Bz b) = true ↔ a ≤ b := by
+  unfold bytesLe
+  rw [Bool.not_eq_true', ← Bool.not_eq_true, u64Bz_lt_iff, UInt64.le_iff_toNat_le, UInt64.lt_iff_toNat_lt]
+  omega
+
 end PvProofs.Exrec
